@@ -1253,6 +1253,7 @@ class CountFingerprint(Fingerprint):
         new_counts = self.counts.copy()
         for k, v in other.counts.items():
             new_counts[k] = new_counts.get(k, 0) - v
+        new_counts = {k: v for k, v in new_counts.items() if v != 0}
 
         new_indices = np.asarray(list(new_counts.keys()), dtype=np.int64)
 
